@@ -150,8 +150,13 @@ def step (cfg : Cfg) (s : St) : Act → Option St
       | .inWrite off =>
         if ok = true → off = cfg.lens w then
           let failAll := cfg.coalesce && !ok
+          -- `flush` attributes the result of the vectored write by BYTE COUNT: a buffer all of whose bytes were
+          -- taken is reported (len, nil) even when the Write that took them returned an error as well (the
+          -- error then goes to the buffers behind it only; with none behind it, it is dropped). The direct
+          -- writer hands (n, err) through unchanged.
+          let okW := ok || (cfg.coalesce && off == cfg.lens w)
           some { s with
-            pc := setPc (if failAll then setMany s.pc s.todo (.wrote 0 false) else s.pc) w (.wrote off ok),
+            pc := setPc (if failAll then setMany s.pc s.todo (.wrote 0 false) else s.pc) w (.wrote off okW),
             owner := none,
             todo := if failAll then [] else s.todo,
             flushing := if cfg.coalesce && (!ok || s.todo.isEmpty) then false else s.flushing }
